@@ -115,6 +115,13 @@ fn cond<P: mahf::Problem>(n: u32) -> Box<dyn Condition<P>> {
 }
 
 pub fn build_real(t: &Tpl, n: u32) -> Option<ExecResult<Configuration<RealP>>> {
+    build_real_with(t, &|| cond(n))
+}
+
+/// Same with an arbitrary termination condition for the main loop.
+pub fn build_real_with(t: &Tpl, mk: &dyn Fn() -> Box<dyn Condition<RealP>>) -> Option<ExecResult<Configuration<RealP>>> {
+    let cond = |_n: u32| mk();
+    let n = 0;
     Some(match t.clone() {
         Tpl::RealGa { pop, tour, pm, dev, pc } => h::ga::real_ga(h::ga::RealProblemParameters { population_size: pop, tournament_size: tour, pm, deviation: dev, pc }, cond(n)),
         Tpl::Es { pop, lambda, dev } => h::es::real_mu_plus_lambda_es::<RealP, ()>(h::es::RealProblemParameters { population_size: pop, lambda, deviation: dev }, cond(n)),
@@ -122,7 +129,7 @@ pub fn build_real(t: &Tpl, n: u32) -> Option<ExecResult<Configuration<RealP>>> {
         Tpl::Pso { n: np, w0, w1, c1, c2, vmax } => h::pso::real_pso(h::pso::RealProblemParameters { num_particles: np, start_weight: w0, end_weight: w1, c_one: c1, c_two: c2, v_max: vmax }, cond(n)),
         Tpl::RealSa { t0, alpha, dev } => h::sa::real_sa(h::sa::RealProblemParameters { t_0: t0, alpha, deviation: dev }, cond(n)),
         Tpl::RealLs { nb, dev } => h::ls::real_ls(h::ls::RealProblemParameters { n_neighbors: nb, deviation: dev }, cond(n)),
-        Tpl::RealIls { nb, dev, inner } => h::ils::real_ils(h::ils::RealProblemParameters { ls_params: h::ls::RealProblemParameters { n_neighbors: nb, deviation: dev }, ls_condition: cond(inner) }, cond(n)),
+        Tpl::RealIls { nb, dev, inner } => h::ils::real_ils(h::ils::RealProblemParameters { ls_params: h::ls::RealProblemParameters { n_neighbors: nb, deviation: dev }, ls_condition: LessThanN::iterations(inner) }, cond(n)),
         Tpl::RealRs => h::rs::real_rs(cond(n)),
         Tpl::RealRw { dev } => h::rw::real_rw(h::rw::RealProblemParameters { deviation: dev }, cond(n)),
         Tpl::Iwo { init, max, smin, smax, dev0, dev1, modulation } => h::iwo::real_iwo(
@@ -140,6 +147,12 @@ pub fn build_real(t: &Tpl, n: u32) -> Option<ExecResult<Configuration<RealP>>> {
 }
 
 pub fn build_bits(t: &Tpl, n: u32) -> Option<ExecResult<Configuration<BitsP>>> {
+    build_bits_with(t, &|| cond(n))
+}
+
+pub fn build_bits_with(t: &Tpl, mk: &dyn Fn() -> Box<dyn Condition<BitsP>>) -> Option<ExecResult<Configuration<BitsP>>> {
+    let cond = |_n: u32| mk();
+    let n = 0;
     Some(match t.clone() {
         Tpl::BinaryGa { pop, tour, rm, pc, pm } => h::ga::binary_ga(h::ga::BinaryProblemParameters { population_size: pop, tournament_size: tour, rm, pc, pm }, cond(n)),
         _ => return None,
@@ -147,10 +160,16 @@ pub fn build_bits(t: &Tpl, n: u32) -> Option<ExecResult<Configuration<BitsP>>> {
 }
 
 pub fn build_perm(t: &Tpl, n: u32) -> Option<ExecResult<Configuration<TspP>>> {
+    build_perm_with(t, &|| cond(n))
+}
+
+pub fn build_perm_with(t: &Tpl, mk: &dyn Fn() -> Box<dyn Condition<TspP>>) -> Option<ExecResult<Configuration<TspP>>> {
+    let cond = |_n: u32| mk();
+    let n = 0;
     Some(match t.clone() {
         Tpl::PermSa { t0, alpha, swap } => h::sa::permutation_sa(h::sa::PermutationProblemParameters { t_0: t0, alpha, num_swap: swap }, cond(n)),
         Tpl::PermLs { nb, swap } => h::ls::permutation_ls(h::ls::PermutationProblemParameters { num_neighbors: nb, num_swap: swap }, cond(n)),
-        Tpl::PermIls { nb, swap, inner } => h::ils::permutation_ils(h::ils::PermutationProblemParameters { ls_params: h::ls::PermutationProblemParameters { num_neighbors: nb, num_swap: swap }, ls_condition: cond(inner) }, cond(n)),
+        Tpl::PermIls { nb, swap, inner } => h::ils::permutation_ils(h::ils::PermutationProblemParameters { ls_params: h::ls::PermutationProblemParameters { num_neighbors: nb, num_swap: swap }, ls_condition: LessThanN::iterations(inner) }, cond(n)),
         Tpl::PermRs => h::rs::permutation_rs(cond(n)),
         Tpl::PermRw { swap } => h::rw::permutation_random_walk(h::rw::PermutationProblemParameters { num_swap: swap }, cond(n)),
         Tpl::As { ants, alpha, beta, tau0, rho, decay } => h::aco::ant_system(h::aco::ASParameters::verif_new(ants, alpha, beta, tau0, rho, decay), cond(n)),
